@@ -321,6 +321,9 @@ func plan(c *hx.Ctx) *hx.Plan {
 			continue
 		}
 		ins := lexfam.Inputs(f.Alphabet, f.MaxLen)
+		if f.Inputs != nil {
+			ins = f.Inputs
+		}
 		famCount[f.Name] = map[string]any{"definitions": len(f.Defs), "inputs_per_definition": len(ins), "alphabet": f.Alphabet, "max_len": f.MaxLen}
 		for _, d := range f.Defs {
 			jobs = append(jobs, job{f.Name, d, ins})
